@@ -1,6 +1,6 @@
 SPECIFICATION MCSpec
 CONSTANTS
   MaxLen = 4
-  BatchSizes = {1, 2, 3}
+  BatchSizes = {1, 2}
 INVARIANTS I_BatchBound I_Window I_ChunkIndependent I_Order
 CHECK_DEADLOCK TRUE
